@@ -144,7 +144,7 @@ fn u_reduce(nr: usize, nm: usize, kinds: [u8; 3], ops: [u8; 3]) {
     let reduced0 = m(&store).action_reduced.load(Ordering::SeqCst);
     let mwx0 = m(&store).middleware_executed.load(Ordering::SeqCst);
     let disp: Arc<dyn Dispatcher<Act>> = Arc::new(store.clone());
-    let (need, out, effects) = in_reducer(|| store.do_reduce(&a, s, disp, rt::instant_now()));
+    let (need, out, effects) = in_reducer(|| store.do_reduce(&a, s, disp, rt::now_model()));
 
     let mm = mw_model(0, nm, H_REDUCE);
     check_hooks(0, nm, H_REDUCE, &mm, s, a, rt::CTX_REDUCER);
@@ -289,7 +289,7 @@ fn u_notify(ns: usize, nm: usize) {
     let sub0 = m(&store).subscriber_notified.load(Ordering::SeqCst);
     let mwx0 = m(&store).middleware_executed.load(Ordering::SeqCst);
     let disp: Arc<dyn Dispatcher<Act>> = Arc::new(store.clone());
-    in_reducer(|| store.do_notify(&a, &s, disp, rt::instant_now()));
+    in_reducer(|| store.do_notify(&a, &s, disp, rt::now_model()));
 
     let mm = mw_model(0, nm, H_DISPATCH);
     check_hooks(0, nm, H_DISPATCH, &mm, s, a, rt::CTX_REDUCER);
@@ -472,14 +472,14 @@ harness! { #[kani::unwind(6)] fn twin_u_phase() {
     let s: St = kani::any();
     let a: Act = kani::any();
     let d1: Arc<dyn Dispatcher<Act>> = Arc::new(store.clone());
-    let (_n, out, eff) = in_reducer(|| store.do_reduce(&a, s, d1, rt::instant_now()));
+    let (_n, out, eff) = in_reducer(|| store.do_reduce(&a, s, d1, rt::now_model()));
     core::mem::forget(eff);
     chk!(12, unsafe { RED[0][0].n } == 1, "TWIN (wrong on purpose): reducer always called");
     chk!(1, out == s, "TWIN (wrong on purpose): state never changes");
     chk!(7, unsafe { MW[0][0][H_REDUCE].ctx } == rt::CTX_POOL, "TWIN (wrong on purpose)");
     chk!(18, m(&store).action_reduced.load(Ordering::SeqCst) == 0, "TWIN (wrong on purpose)");
     let d2: Arc<dyn Dispatcher<Act>> = Arc::new(store.clone());
-    in_reducer(|| store.do_notify(&a, &s, d2, rt::instant_now()));
+    in_reducer(|| store.do_notify(&a, &s, d2, rt::now_model()));
     chk!(3, unsafe { SUB[0][0].n } == 2, "TWIN (wrong on purpose): subscriber called twice");
     chk!(11, rusty_pool::ghost::tasks() == 7, "TWIN (wrong on purpose)");
     core::mem::forget(store);
